@@ -49,7 +49,7 @@ def main(argv=None) -> int:
             # self-validation battery on scratch copies of the current tree; never changes the exit code
             try:
                 from sa import selftest
-                b = selftest.battery(prop)
+                b = selftest.battery(prop, jobs=12, scope="thorough")
                 ctx.extra_coverage["selftest"] = b
                 print(f"selftest {prop}: breaking variants reported {b['breaking_reported']}/{b['breaking_variants']} "
                       f"(undecided {b['breaking_undecided']}, missed {b['breaking_missed']}), behaviour-preserving variants silent "
